@@ -1,4 +1,5 @@
 import RuxModel.Lemmas.Reg
+import RuxModel.Lemmas.RegHeap
 /-
   C12 — Groups add prefix and middleware to their own routes and leave no residue.
 
@@ -19,8 +20,12 @@ import RuxModel.Lemmas.Reg
   Router.Use inside a group affects only routes registered later     C12_use_local, C12_use_in_group_not_global
   inside that group
   Controller / Resource are Group instances                          C12_resource_controller
-  (slices) a registered route's handlers never change afterwards,    C12_no_alias  (Props/C12 below, heap
-  although groups append into shared backing arrays                  model in Model/RegHeap.lean)
+  (slices) a registered route's handlers never change afterwards,    C12_no_alias (slice model:
+  although groups append into shared backing arrays                  Model/RegHeap.lean)
+
+  C12_no_alias assumes that every call passes a middleware slice with a backing array of its own
+  (the model allocates one per call).  A caller that hands sub-slices of ONE array with spare
+  capacity to several Group calls gets that array overwritten by rux: known finding F17 (reg corpus).
 
   NOT proved here: which request path reaches a stored path (C01/C11, table and path models); the
   paths `Resource` registers (C16); that `cfg.fmt`/`cfg.sfmt` ARE formatPath/simpleFmtPath (C11,
@@ -197,5 +202,56 @@ example : okCtrlList prog = true ∧
 /-- the hypotheses on the path functions are satisfiable: the driver's instance meets them -/
 example : (∀ x, (cleanCfg 63).fmt x ≠ []) ∧ CleanFns (cleanCfg 63) CleanPath :=
   ⟨cleanFmt_ne, cleanFns 63⟩
+
+/-! ### slices -/
+
+/-- Slice level (backing arrays, capacities, ANY growth policy `pol`): run any program from any
+    state that satisfies the separation invariant `Inv` (the fresh router does: `inv_init`, and
+    every state reached by `hexecList` does again).  Then
+    (1) what the slices show evolves exactly as the list-level interpreter `execList` says, so all
+        list-level theorems (C12_denotation, …) hold for the real slices;
+    (2) every route registered before is still registered and shows the SAME handler list — a
+        registered route's handlers never change, although `Group`/`Use` append in place into
+        backing arrays shared with saved slices of enclosing groups;
+    (3) the invariant holds again.
+    A panic at slice level is the same panic at list level. -/
+theorem C12_no_alias (pol : Pol) (cfg : Cfg) (st : HS) (hi : Inv st) (prog : List Stmt) :
+    (∀ st', hexecList pol cfg st prog = .ok st' →
+      execList cfg st.abs prog = .ok st'.abs ∧
+      (∀ r, r ∈ st.routes → r ∈ st'.routes ∧ read st'.heap r.handlers = read st.heap r.handlers) ∧
+      Inv st') ∧
+    (∀ e, hexecList pol cfg st prog = .error e → execList cfg st.abs prog = .error e) := by
+  have h := hexecList_sim pol cfg st hi prog
+  refine ⟨fun st' hr => ?_, h.2⟩
+  obtain ⟨hs, hl⟩ := h.1 st' hr
+  refine ⟨hl, fun r hmem => ⟨?_, (step_read_route hi hs hmem).1⟩, hs.inv⟩
+  obtain ⟨new, hnew, _⟩ := hs.routes
+  rw [hnew]; exact List.mem_append_left _ hmem
+
+namespace C12heap
+def g0 : Bytes := [47, 111]       -- "/o"
+def gx : Bytes := [47, 120]       -- "/x"
+def gy : Bytes := [47, 121]       -- "/y"
+def pr : Bytes := [47, 114]       -- "/r"
+def rd (id : Nat) : RouteDef :=
+  { id := id, main := id, name := [], methods := [[71, 69, 84]], path := pr, pre := [], post := [[]] }
+/-- Group("/o", { Group("/x", {GET /r}, 2); Group("/y", {GET /r}, 3) }, 1) -/
+def prog : List Stmt :=
+  [.group g0 [1] [.group gx [2] [.route (rd 10)], .group gy [3] [.route (rd 11)]]]
+/-- every allocation gets two spare cells -/
+def pol : Pol := ⟨fun _ => 2, 0⟩
+def view (r : Except Err HS) : List H × List (List H) :=
+  match r with
+  | .ok st => (cells st.heap 0, st.routes.map fun r => read st.heap r.handlers)
+  | .error _ => ([], [])
+end C12heap
+
+open C12heap in
+/-- non-vacuity: the two sibling groups both appended IN PLACE into the array of the outer group's
+    argument (its cell 1 first held 2, now holds 3), and the first route still shows [1, 2] -/
+example : view (hexecList pol (cleanCfg 63) HS.init prog) = ([1, 3, 0], [[1, 2], [1, 3]]) := by decide
+
+example : Inv HS.init := inv_init
+
 
 end Rux
